@@ -1155,6 +1155,59 @@ pub fn lagfull(opts: &Opts) -> i32 {
     unsafe { libc::_exit(0) }
 }
 
+/// child, directed (C19 after a burst): several threads insert tens of thousands of small records
+/// as fast as they can, with no flush, on a store that has two write-buffer shards (the child is
+/// pinned to four CPUs), so that a shard holds thousands of entries when its worker drains it.
+/// Everything accepted must be on the device within the bound after the burst ends.
+pub fn lagburst(opts: &Opts) -> i32 {
+    let path = opts.str("path", "/verif/.build/cases/lagburst.feox");
+    let total = opts.u64("records", 24_000);
+    let _ = std::fs::remove_file(&path);
+    let store = match FeoxStore::builder().device_path(path.clone()).file_size((total + 4096) * 4096).enable_caching(false).no_memory_limit().build() {
+        Ok(s) => std::sync::Arc::new(s),
+        Err(e) => {
+            println!("lagburst FAIL cannot-create-store {e}");
+            return 0;
+        }
+    };
+    let threads = 4u64;
+    let handles: Vec<_> = (0..threads)
+        .map(|t| {
+            let store = store.clone();
+            std::thread::spawn(move || {
+                let mut accepted = 0u64;
+                for i in 0..total / threads {
+                    if store.insert(format!("burst-{t}-{i:06}").as_bytes(), &value_for(t * 1_000_000 + i, 48)).is_ok() {
+                        accepted += 1;
+                    }
+                }
+                accepted
+            })
+        })
+        .collect();
+    let accepted: u64 = handles.into_iter().map(|h| h.join().unwrap_or(0)).sum();
+    let t0 = std::time::Instant::now();
+    let bound = std::time::Duration::from_millis(opts.u64("bound_ms", 15_000));
+    let mut missing = u64::MAX;
+    let mut verdict = String::new();
+    while t0.elapsed() < bound {
+        missing = store.verif_snapshot().iter().filter(|r| r.sector == 0).count() as u64;
+        if missing == 0 {
+            verdict = format!("ok accepted={accepted} durable-after-ms={}", t0.elapsed().as_millis());
+            break;
+        }
+        std::thread::sleep(std::time::Duration::from_millis(250));
+    }
+    if verdict.is_empty() {
+        verdict = format!("FAIL accepted-writes-still-not-on-the-device-{}ms-after-the-burst-ended accepted={accepted} not-written={missing}", bound.as_millis());
+    }
+    println!("lagburst {verdict}");
+    use std::io::Write;
+    let _ = std::io::stdout().flush();
+    let _ = std::fs::remove_file(&path);
+    unsafe { libc::_exit(0) }
+}
+
 pub fn run_lag(opts: &Opts) -> i32 {
     let dir = opts.str("out", "/verif/.build/cases/lag");
     let seed = opts.u64("seed", 1);
@@ -1172,6 +1225,23 @@ pub fn run_lag(opts: &Opts) -> i32 {
                 None => format!("FAIL full-device-child-died-or-hung {}", line.chars().take(80).collect::<String>()),
             };
             out.emit3(&format!("note lag full-device-then-freed run={k} {}", line.replace(' ', "_")), "note", &verdict);
+        }
+        {
+            // the burst case: pinned to four CPUs (two write-buffer shards)
+            let o = std::process::Command::new("timeout")
+                .args(["150", "taskset", "-c", "0-3"])
+                .arg(crate::img::self_exe())
+                .args(["lagburstchild", &format!("path={keep}/lagburst.feox")])
+                .stderr(std::process::Stdio::null())
+                .output();
+            let line = o.map(|o| String::from_utf8_lossy(&o.stdout).trim().to_string()).unwrap_or_else(|_| "SPAWN-FAILED".into());
+            let verdict = match line.strip_prefix("lagburst ") {
+                Some(v) if v.starts_with("ok") => "ok".to_string(),
+                Some(v) => v.to_string(),
+                None => format!("FAIL burst-child-died-or-hung {}", line.chars().take(80).collect::<String>()),
+            };
+            out.emit3(&format!("note lag burst-then-silence {}", line.replace(' ', "_")), "note", &verdict);
+            let _ = std::fs::remove_file(format!("{keep}/lagburst.feox"));
         }
         out.finish();
     }
